@@ -225,6 +225,7 @@ AGENT_RULES = [LOGS] + ENUMS + TS_ACC + [
     Sub(r"\bon_exit_reset_held_lock_data\s+\w+;", "", None),            # PIKA_HAVE_VERIFY_LOCKS bookkeeping (off in this build: empty struct)
     Sub(r"\bstd::uncaught_exceptions\(\)", "vx_uncaught_exceptions()", None),
     Sub(r"\bpika::get_local_worker_thread_num\(\)", "get_local_worker_thread_num()", None),
+    Sub(r"\bpika::get_worker_thread_num\(\)", "get_worker_thread_num()", None),
     Method("get_thread_id", "coroutine_get_thread_id(&{recv})"),
     Method("yield", "coroutine_yield(&{recv}, {0})"),
     Method("interruption_point", "{ thread_data_interruption_point(&{recv}); if (vx_exc) return VX_EXC_RESULT; }"),   # may throw thread_interrupted
